@@ -76,7 +76,7 @@ func scalarFamily() []*V {
 		vStr("\x01i\x00\x00\x00\x00\x00\x00\x00\x05"), vStr("\x01u"), vStr("\x01d"), vStr("\x01b\x01"), vStr("\x00A"), vStr("\x00Aab"), vStr("\x01tString"),
 		vRegexp("a"), vRegexp("b"), vRegexp("ab"), vRegexp("a|b"), vRegexp(".*"), vRegexp(""),
 		vBinary(""), vBinary("a"), vBinary("ab"), vBinary("\x01u"), vBinary("\x00"),
-		vTimespan(0), vTimespan(1), vTimespan(5), vTimespan(1000000000),
+		vTimespan(0), vTimespan(1), vTimespan(5), vTimespan(1000000000), vTimespan(1500000000), vTimespan(999999999), vTimespan(-1), vTimespan(-999999999), vTimespan(-1000000000),
 		vTimestamp(0, 0), vTimestamp(0, 1), vTimestamp(1, 0), vTimestamp(5, 0), vTimestamp(5, 999999999), vTimestamp(-1, 5),
 	}
 }
@@ -189,6 +189,13 @@ func textTypeFamily() []*T {
 		"Hash[1]", "Hash[1, 5]", "Hash[String, Integer, 1]", "Integer[default, default]", "Float[default, 1.0]", "Float[1.0]", "Float[default, default]",
 		"Type[String['a']]", "Optional['']", "NotUndef[String['a']]", "Enum['a', 'B', true]", "Enum['a', 'b', true]", "Enum[['a','b']]", "Pattern['a']", "Pattern[Regexp[/a/]]", "Regexp['a']",
 		"Variant[[Integer,String]]", "Tuple[[Integer,String]]", "Tuple[[Integer,String], Integer[2,3]]", "Tuple[Integer, 1]", "Tuple[Integer, String, 1, default]", "Tuple[1, 5]", "Tuple[5]",
+		// parameters given as a hash, the entries in different orders; the same URI given as text
+		"URI[{scheme => 'http', host => 'example.com'}]", "URI[{host => 'example.com', scheme => 'http'}]", "URI['http://example.com/a?q#f']",
+		"URI[{scheme => 'http', host => 'example.com', path => '/a', query => 'q', fragment => 'f'}]", "URI[{fragment => 'f', query => 'q', path => '/a', host => 'example.com', scheme => 'http'}]",
+		"URI[{scheme => Enum['http', 'https'], host => 'example.com'}]", "URI[{host => 'example.com', scheme => Enum['https', 'http']}]",
+		// bounds that differ by less than a second
+		"Timespan['0-00:00:01.5', '0-00:00:05']", "Timespan['0-00:00:01.0', '0-00:00:05']", "Timespan['0-00:00:01', '0-00:00:05.000000001']", "Timespan['0-00:00:01.5']",
+		"Timestamp['2000-01-01T00:00:00.5', '2001-01-01']", "Timestamp['2000-01-01T00:00:00.000', '2001-01-01']",
 		"Struct[{a=>Undef}]", "Struct[{a=>Any}]", "Struct[{Optional[a]=>Any}]", "Struct[{NotUndef[a]=>Any}]", "Struct[{a=>NotUndef}]", "Struct[{Optional[a]=>NotUndef}]",
 	}
 	r := make([]*T, len(texts))
@@ -606,6 +613,11 @@ func buildPool(c px.Context, cfg *lib.Config, res *lib.Result, rng *lib.Rng) *po
 		r := rng.Fork()
 		d := randomValue(r, 1+r.Intn(3))
 		p.add(d, "random")
+		if i%2 == 1 {
+			if pd := permutedDesc(r, d); pd != nil {
+				p.add(pd, "random-perm")
+			}
+		}
 		// every second container also with random routes at its nodes
 		if len(d.Vs) > 0 && i%2 == 0 {
 			if rd := routed(r, d); rd.hasRoute() {
@@ -645,6 +657,35 @@ func buildPool(c px.Context, cfg *lib.Config, res *lib.Result, rng *lib.Rng) *po
 				// the payload of a container key, split at every position into two strings
 				p.add(vArr(vStr(ks[:len(ks)/2]), vStr(ks[len(ks)/2:])), "key-split")
 				p.add(vStr(ks[2:]), "key-payload")
+			}
+		}
+	}
+	// equal values whose hashes were filled in a different order (caches.go): the inferred, lazily cached
+	// types differ while the values are equal
+	for _, d := range permFamily() {
+		p.add(d, "perm")
+	}
+	nMixed := 40
+	if cfg.Thorough() {
+		nMixed = 300
+	}
+	permRng := lib.NewRng(cfg.Seed + 15485863)
+	for i := 0; i < nMixed; i++ {
+		r := permRng.Fork()
+		d := randomMixedHash(r, 1)
+		switch i % 4 {
+		case 1:
+			d = vArr(d)
+		case 2:
+			d = vHash(vStr("k"), d)
+		case 3:
+			d = vHash(d, vInt(1))
+		}
+		if p.add(d, "random-mixed") != nil {
+			for j := 0; j < 2; j++ {
+				if pd := permutedDesc(r, d); pd != nil {
+					p.add(pd, "random-perm")
+				}
 			}
 		}
 	}
